@@ -371,3 +371,17 @@ pub fn gen_file_plan(rng: &mut Rng, len: usize) -> FilePlan {
         open_fails: None,
     }
 }
+
+/// Bytes delivered by all source devices at the moment the n-th stdout byte was accepted.
+pub fn delivered_when_out_reached(events: &[Event], n: usize) -> Option<usize> {
+    for e in events {
+        if e.chan == Chan::Out {
+            if let Res::N(k) = e.res {
+                if (e.at as usize) + (k as usize) >= n && k > 0 {
+                    return Some(e.delivered as usize);
+                }
+            }
+        }
+    }
+    None
+}
